@@ -25,7 +25,7 @@ class Ob:
     def __init__(self, id, props, tu, roots, harness, entry='harness', spec=None, enforce=None, replace=(),
                  tier='U', unwind=None, unwindset=None, defines=None, cfg='kernel', timeout=300, quick=True,
                  covers=0, expect_loops=(), note='', flags=(), bounds=None, loop_contracts=True, object_bits=12,
-                 expected_fail=(), kissat=False, spec_text='', includes=(), copies=()):
+                 expected_fail=(), kissat=False, spec_text='', includes=(), copies=(), stubs=None):
         self.id = id; self.props = props; self.tu = tu; self.roots = roots; self.harness = harness; self.entry = entry
         self.mesh_harness = None
         if not isinstance(harness, str):
@@ -34,7 +34,7 @@ class Ob:
         self.unwind = unwind; self.unwindset = unwindset; self.defines = defines or {}; self.cfg = cfg
         self.timeout = timeout; self.quick = quick; self.covers = covers; self.expect_loops = expect_loops
         self.note = note; self.flags = list(flags); self.bounds = bounds or {}; self.loop_contracts = loop_contracts
-        self.object_bits = object_bits; self.expected_fail = expected_fail; self.kissat = kissat; self.spec_text = spec_text; self.includes = list(includes); self.copies = list(copies)
+        self.object_bits = object_bits; self.expected_fail = expected_fail; self.kissat = kissat; self.spec_text = spec_text; self.includes = list(includes); self.copies = list(copies); self.stubs = stubs or {}
 
 # ---------------------------------------------------------------------------------------------- AST cache
 TUS = {'kernel': 'tu/kernel.cc', 'tethex': 'tu/tethex.cc', 'ovmb': 'tu/ovmb.cc', 'vector': 'tu/vector.cc'}
@@ -98,11 +98,14 @@ GH = {'Entity_Vertex': 'ghost_v', 'Entity_Edge': 'ghost_e', 'Entity_HalfEdge': '
       'Entity_HalfFace': 'ghost_hf', 'Entity_Cell': 'ghost_c', 'VH': 'ghost_v', 'EH': 'ghost_e', 'HEH': 'ghost_he',
       'FH': 'ghost_f', 'HFH': 'ghost_hf', 'CH': 'ghost_c'}
 
-def ghost_stub_bodies(unit):
+def ghost_stub_bodies(unit, ob=None):
     """bodies of the stubbed ResourceManager template-level notifications (ghost property arrays, spec/wf.h)"""
     out = []
     for cn, proto in unit.em.stub_protos.items():
         m = re.match(r'^ResourceManager__(resize_props|reserve_props|entity_deleted|swap_property_elements|copy_property_elements|clear_props)_(\w+)$', cn)
+        custom = [b for q, b in (ob.stubs.items() if ob else []) if re.sub(r'[^A-Za-z0-9_]', '_', q.replace('OpenVolumeMesh::', '').replace('::', '__')) == cn]
+        if custom:
+            out.append(proto + '\n' + custom[0]); continue
         if cn == 'ResourceManager__clear_all_props':
             out.append(proto + ' { /* properties become private; storages stay tracked */ }'); continue
         if not m: raise Cxx2cError('no ghost body for stub ' + cn)
@@ -152,6 +155,8 @@ def run_ob(ob, tier, workdir):
         contracts = parse_spec(specs_text(ob.spec) + '\n' + ob.spec_text)
         cfg = cfg_named(ob.cfg)
         cfg['prelude'] = 'extern int g_k, g_j; extern unsigned long g_u;\n'
+        cfg['stubs'] = dict(cfg.get('stubs', {}))
+        for q in ob.stubs: cfg['stubs'][q] = 1
         unit = Unit(ix, contracts=contracts, cfg=cfg)
         for r in ob.roots:
             if isinstance(r, str): unit.want(r, all_overloads=True)
@@ -173,7 +178,7 @@ def run_ob(ob, tier, workdir):
         open(os.path.join(d, 'gen.c'), 'w').write(ctext)
         hpath = os.path.join(d, 'h.c')
         defs = ''.join('#define %s %s\n' % kv for kv in ob.defines.items())
-        stubs = ghost_stub_bodies(unit) if unit.em.stub_protos else ''
+        stubs = ghost_stub_bodies(unit, ob) if unit.em.stub_protos else ''
         inc = ''.join('#include "%s/spec/%s"\n' % (ROOT, h) for h in ob.includes)
         open(hpath, 'w').write(defs + '#include "gen.c"\nint g_k, g_j; unsigned long g_u;\n#include "%s/spec/common.h"\n' % ROOT + inc + stubs + ob.harness + '\n')
     except Cxx2cError as e:
@@ -189,7 +194,7 @@ def run_ob(ob, tier, workdir):
     cpath = os.path.join(BUILD, 'cache', key + '.json')
     if os.path.exists(cpath) and not os.environ.get('VERIF_NOCACHE'):
         c = json.load(open(cpath))
-        if c.get('status') in ('pass', 'fail'):
+        if c.get('status') == 'pass':
             res.update(c); res['cached'] = True; res['log'] = log; res['results'] = [tuple(x) for x in c['results']]
             if 'fails' in c: res['fails'] = [tuple(x) for x in c['fails']]
             res['covers'] = tuple(c.get('covers', (0, 0)))
@@ -257,7 +262,7 @@ def run_ob(ob, tier, workdir):
         if len(cov) < ob.covers or sat < len(cov):
             res['status'] = 'undecided'; res['reason'] = 'vacuity: %d of %d cover points reachable (expected %d)' % (sat, len(cov), ob.covers)
     res['wall_s'] = time.time() - t0
-    if res['status'] in ('pass', 'fail'):
+    if res['status'] == 'pass':
         os.makedirs(os.path.dirname(res['cache_path']), exist_ok=True)
         json.dump({k: v for k, v in res.items() if k not in ('log', 'cache_path')}, open(res['cache_path'], 'w'))
     return res
